@@ -449,7 +449,8 @@ impl Sim {
         } else {
             None
         };
-        let p = Pkt::Publish { ver, dup: false, qos, retain: false, topic: wire_topic.clone(), id, props: props.clone(), payload: key.as_bytes().to_vec() };
+        let retain = self.r.below(6) == 0;
+        let p = Pkt::Publish { ver, dup: false, qos, retain, topic: wire_topic.clone(), id, props: props.clone(), payload: key.as_bytes().to_vec() };
         self.msgs.insert(key.clone(), Msg { qos, topic: topic.clone(), ..Default::default() });
         let accepted = self.send(i, &p);
         if let Some(m) = self.msgs.get_mut(&key) {
